@@ -601,8 +601,8 @@ theorem microAllS_ack_end (s : RState) (ms tail : List Micro) (h : recs tail = [
 
 theorem stepdown_ok (n : Node) (s : RState) (g : Ghost) (t : Nat)
     (hS : Sync n s) (hwf : WF n.log) (hsat : Sat s g) (ht : t > n.term) :
-    StepOk s g { micros := [.wal (.termAndVote t none), .ackTerm t],
-                 node := { n with term := t, votedFor := none, role := .follower }, reply := .none } := by
+    StepOk s g (stepDownOut n t) := by
+  unfold stepDownOut
   have hP := P_of_sync hS hwf hsat
   have hgt : t > s.term := by rw [← hS.1]; exact ht
   have hP1 := P_tv s g t none hP
@@ -620,6 +620,23 @@ theorem noop_ok (n n' : Node) (s : RState) (g : Ghost) (rp : Reply)
   refine ⟨by simpa [Chain] using P_of_sync hS hwf hsat, ?_, by rw [h3]; exact hwf⟩
   simp only [microAllS, List.foldl_nil]
   exact ⟨by rw [h1]; exact hS.1, by rw [h2]; exact hS.2.1, by rw [h3]; exact hS.2.2⟩
+
+theorem elect_ok (n : Node) (s : RState) (g : Ghost)
+    (hS : Sync n s) (hwf : WF n.log) (hsat : Sat s g) : StepOk s g (electOut n) := by
+  have hP := P_of_sync hS hwf hsat
+  unfold electOut
+  have hgt : n.term + 1 > s.term := by rw [← hS.1]; omega
+  have hs1 := apply_tv_higher s (n.term + 1) (some n.id) hgt
+  have hP1 := P_tv s g (n.term + 1) (some n.id) hP
+  refine ⟨⟨hP, ?_⟩, ?_, hwf⟩
+  · simp only [microS, microG_tv]
+    refine ⟨hP1, ?_⟩
+    have hP2 := P_ackTerm _ g (n.term + 1) hP1 (by rw [hs1]; exact Nat.le_refl _)
+    refine ⟨hP2, ?_⟩
+    simp only [microS, Chain]
+    exact P_ackVote _ _ _ _ hP2 (Or.inr ⟨by rw [hs1], by rw [hs1]⟩)
+  · simp only [microAllS, List.foldl_cons, List.foldl_nil, microS, hs1]
+    exact ⟨rfl, rfl, hS.2.2⟩
 
 theorem step_ok (n : Node) (s : RState) (g : Ghost) (e : Event)
     (hS : Sync n s) (hwf : WF n.log) (hsat : Sat s g) : StepOk s g (step n e) := by
@@ -683,30 +700,45 @@ theorem step_ok (n : Node) (s : RState) (g : Ghost) (e : Event)
             · rw [e1, e2]; exact htail
           · rw [e3]
             exact ⟨hterm3, hvote3, ht.2.1⟩
-  | startElection =>
-    simp only [step]
-    have hgt : n.term + 1 > s.term := by rw [← hS.1]; omega
-    have hs1 := apply_tv_higher s (n.term + 1) (some n.id) hgt
-    have hP1 := P_tv s g (n.term + 1) (some n.id) hP
-    refine ⟨⟨hP, ?_⟩, ?_, hwf⟩
-    · simp only [microS, microG_tv]
-      refine ⟨hP1, ?_⟩
-      have hP2 := P_ackTerm _ g (n.term + 1) hP1 (by rw [hs1]; exact Nat.le_refl _)
-      refine ⟨hP2, ?_⟩
-      simp only [microS, Chain]
-      exact P_ackVote _ _ _ _ hP2 (Or.inr ⟨by rw [hs1], by rw [hs1]⟩)
-    · simp only [microAllS, List.foldl_cons, List.foldl_nil, microS, hs1]
-      exact ⟨rfl, rfl, hS.2.2⟩
-  | voteResponse t =>
+  | startElection => exact elect_ok n s g hS hwf hsat
+  | voteResponse frm t granted =>
     simp only [step]
     split
-    · next h => exact stepdown_ok n s g t hS hwf hsat h.2
     · exact noop_ok n n s g _ hS hwf hsat rfl rfl rfl
-  | preVoteResponse t b =>
+    · split
+      · next h => exact stepdown_ok n s g t hS hwf hsat h
+      · split
+        · split
+          · exact noop_ok n _ s g _ hS hwf hsat rfl rfl rfl
+          · exact noop_ok n _ s g _ hS hwf hsat rfl rfl rfl
+        · exact noop_ok n n s g _ hS hwf hsat rfl rfl rfl
+  | startPreVote =>
+    simp only [step]
+    exact noop_ok n _ s g _ hS hwf hsat rfl rfl rfl
+  | preVote t c li lt =>
+    simp only [step]
+    refine ⟨chain_ackTerm_end hP (by rw [hS.1]; exact Nat.le_refl _), ?_, hwf⟩
+    simp only [microAllS, List.foldl_cons, List.foldl_nil, microS]
+    exact hS
+  | preVoteResponse frm t granted =>
     simp only [step]
     split
-    · next h => exact stepdown_ok n s g t hS hwf hsat h.2
     · exact noop_ok n n s g _ hS hwf hsat rfl rfl rfl
+    · split
+      · next h =>
+        exact stepdown_ok { n with inPreVote := false } s g t ⟨hS.1, hS.2.1, hS.2.2⟩ hwf hsat h
+      · split
+        · split
+          · exact elect_ok _ s g ⟨hS.1, hS.2.1, hS.2.2⟩ hwf hsat
+          · exact noop_ok n _ s g _ hS hwf hsat rfl rfl rfl
+        · exact noop_ok n n s g _ hS hwf hsat rfl rfl rfl
+  | timeoutNow frm t lid =>
+    simp only [step]
+    split
+    · exact noop_ok n n s g _ hS hwf hsat rfl rfl rfl
+    · split
+      · exact noop_ok n n s g _ hS hwf hsat rfl rfl rfl
+      · exact elect_ok n s g hS hwf hsat
   | appendResponse t =>
     simp only [step]
     split
@@ -1005,23 +1037,58 @@ theorem preHigher_no_vote (n : Node) (t : Nat) (r : Role) (a b : Nat) :
     Micro.ackVote a b ∉ (preHigher n t r).1 := by
   unfold preHigher; split <;> simp
 
+theorem electOut_votes (n : Node) (t c : Nat) (h : Micro.ackVote t c ∈ (electOut n).micros) :
+    (electOut n).node.term = t ∧ (electOut n).node.votedFor = some c := by
+  simp only [electOut, List.mem_cons, List.mem_nil_iff, or_false, reduceCtorEq, false_or, Micro.ackVote.injEq] at h ⊢
+  obtain ⟨rfl, rfl⟩ := h; exact ⟨rfl, rfl⟩
+
+theorem stepDownOut_no_vote (n : Node) (t a b : Nat) : Micro.ackVote a b ∉ (stepDownOut n t).micros := by
+  simp [stepDownOut]
+
 /-- a vote is only ever announced for the term and candidate the node then holds in memory -/
 theorem step_votes (n : Node) (e : Event) (t c : Nat) (h : Micro.ackVote t c ∈ (step n e).micros) :
     (step n e).node.term = t ∧ (step n e).node.votedFor = some c := by
   have hno := preHigher_no_vote n
   cases e with
-  | startElection =>
-    simp only [step, List.mem_cons, List.mem_nil_iff, or_false, reduceCtorEq, false_or, Micro.ackVote.injEq] at h ⊢
-    obtain ⟨rfl, rfl⟩ := h; exact ⟨rfl, rfl⟩
-  | voteResponse t' =>
+  | startElection => exact electOut_votes n t c h
+  | voteResponse frm t' granted =>
+    simp only [step] at h
+    (repeat' split at h) <;> first
+      | exact absurd h (stepDownOut_no_vote _ _ _ _)
+      | simp at h
+  | startPreVote => simp [step] at h
+  | preVote a b c' d => simp [step] at h
+  | preVoteResponse frm t' granted =>
     simp only [step] at h ⊢
-    split at h <;> simp at h
-  | preVoteResponse t' b =>
+    split
+    · next h1 => rw [if_pos h1] at h; simp at h
+    · next h1 =>
+      rw [if_neg h1] at h
+      split
+      · next h2 => rw [if_pos h2] at h; exact absurd h (stepDownOut_no_vote _ _ _ _)
+      · next h2 =>
+        rw [if_neg h2] at h
+        split
+        · next h3 =>
+          rw [if_pos h3] at h
+          split
+          · next h4 => rw [if_pos h4] at h; exact electOut_votes _ t c h
+          · next h4 => rw [if_neg h4] at h; simp at h
+        · next h3 => rw [if_neg h3] at h; simp at h
+  | timeoutNow frm t' lid =>
     simp only [step] at h ⊢
-    split at h <;> simp at h
+    split
+    · next h1 => rw [if_pos h1] at h; simp at h
+    · next h1 =>
+      rw [if_neg h1] at h
+      split
+      · next h2 => rw [if_pos h2] at h; simp at h
+      · next h2 => rw [if_neg h2] at h; exact electOut_votes n t c h
   | appendResponse t' =>
-    simp only [step] at h ⊢
-    split at h <;> simp at h
+    simp only [step] at h
+    split at h
+    · exact absurd h (stepDownOut_no_vote _ _ _ _)
+    · simp at h
   | becomeLeader => simp [step] at h
   | propose cmd =>
     simp only [step] at h ⊢
